@@ -113,6 +113,12 @@ func checkC12(w *World, r *Report) {
 	r.Rule("R12.7", "references are resolved where they are written: every getModuleAndReference call looks the reference up in Root() of the referring statement (the grouping's module), and package compile never consults UsesRoot()", 4)
 	r.guard("R12.7", func() { c12LexicalScope(w, r) })
 
+	r.Rule("R12.8", "expansion reaches every statement: expandGroupings descends into every child of the node it handles, on every iteration", 1)
+	r.guard("R12.8", func() { c12ExpandEveryChild(w, r) })
+
+	r.Rule("R12.9", "every when / must statement of a node (its own and those inherited from uses/augment) becomes a context of the compiled node: one append per statement on every iteration of BuildWhens / BuildMusts", 2)
+	r.guard("R12.9", func() { c12EveryWhenMust(w, r) })
+
 	r.Rule("R12.5", "no schema-construction error is forgotten: in package schema every error result bound to a variable is examined", 1)
 	r.guard("R12.5", func() { errRule(w, r, "R12.5", []string{"schema"}, nil) })
 
